@@ -43,6 +43,8 @@ def explore(chk, harness, count, tag):
         ("vfs", "opts vfs save\nargv --config /dev/null -f 8123.5 --alpha0 0.0071\nrun\n"),
         ("vfr", "opts vfr save\nargv --config /dev/null --run_anyway --verbose\nrun\n"),
         # the synchrotron frequency GIVEN as zero means "use alpha0": alpha0 must survive the round trip
+        # doubles that need all 17 significant digits
+        ("vp17", "opts vp17 save\nargv --config /dev/null -T 0.30000000000000004 -E 1299999999.9999998 --BeamEnergySpread 0.00047000000000000004\nrun\n"),
         ("vf0", "opts vf0 save\nargv --config /dev/null -f 0 --alpha0 0.0071\nrun\n"),
         ("vf0c", "opts vf0c save\nargv --config @CFG@\ncfg SynchrotronFrequency=0 alpha0=0.0052\nrun\n"),
         ("vprec", "opts vprec save\nargv --config /dev/null -V 1234567.25 -E 1.29999987e9 -P 11.7500005\nrun\n"),
